@@ -1,5 +1,6 @@
 """Rules about the validator (taste) shared by C03, C04 and C20."""
 import ast
+import copy
 import itertools
 
 from vk import fabio, pools, rules
@@ -475,6 +476,16 @@ def _seq_env(stmts):
     return env
 
 
+class _BulletSubst(ast.NodeTransformer):
+    def __init__(self, name):
+        self.name = name
+
+    def visit_Name(self, n):
+        if n.id == self.name:
+            return ast.copy_location(ast.Name(id="__BULLET__", ctx=n.ctx), n)
+        return n
+
+
 def _sem(node, env, filevar, at=None, depth=0):
     """semantic normal form of per-file table expressions (selection / argsort / sort algebra)"""
     if depth > 30:
@@ -508,6 +519,20 @@ def _sem(node, env, filevar, at=None, depth=0):
         if isinstance(sl, ast.Constant) or (isinstance(sl, ast.Name) and sl.id in ("lv", "level")):
             return f"{base}[{norm(sl)}]"
         return f"SEL({base},{_sem(sl, env, filevar, at, depth + 1)})"
+    if isinstance(node, ast.ListComp) and len(node.generators) == 1 and not node.generators[0].ifs \
+            and isinstance(node.generators[0].target, ast.Name):
+        # [E(x) for x in S]  ->  MAP(E(•), S): element i of the result is a function of element i of S only
+        g = node.generators[0]
+        x = g.target.id
+        body = norm(_BulletSubst(x).visit(copy.deepcopy(node.elt)))
+        if body == "__BULLET__":
+            return _sem(g.iter, env, filevar, at, depth + 1)
+        return f"MAP({body.replace('__BULLET__', '•')},{_sem(g.iter, env, filevar, at, depth + 1)})"
+    if isinstance(node, ast.BinOp) and isinstance(node.op, ast.Mult):
+        # [e] * n: the same element for every position
+        for a, b in ((node.left, node.right), (node.right, node.left)):
+            if isinstance(a, ast.List) and len(a.elts) == 1:
+                return f"REP({_sem(a.elts[0], env, filevar, at, depth + 1)},{_sem(b, env, filevar, at, depth + 1)})"
     if isinstance(node, ast.Compare) and len(node.ops) == 1 and isinstance(node.ops[0], ast.Eq):
         a = _sem(node.left, env, filevar, at, depth + 1)
         b = _sem(node.comparators[0], env, filevar, at, depth + 1)
